@@ -447,7 +447,10 @@ pub fn explore<H: Harness>(sw: &Sweep<'_, H>, opts: &Opts, acc: &mut Acc, bitmap
     let mut completed_depth: i64 = -1;
     let mut per_depth = Vec::new();
     let before_eval = acc.evaluations;
-    'depths: for depth in 0..=sw.depth {
+    // `VERIF_EXTRA_DEPTH=n` deepens every sweep by n tokens (same alphabet, same
+    // oracles); the evidence records the bound that was really used.
+    let bound = depth_bound(sw.depth);
+    'depths: for depth in 0..=bound {
         let p = if depth == 0 { 0 } else if sw.cfgs.len() >= 256 { 1.min(depth) } else { 2.min(depth) };
         let mut work = Vec::new();
         for ci in 0..sw.cfgs.len() {
@@ -502,13 +505,18 @@ pub fn explore<H: Harness>(sw: &Sweep<'_, H>, opts: &Opts, acc: &mut Acc, bitmap
     acc.sweeps.push(serde_json::json!({
         "sweep": sw.name,
         "configurations": sw.cfgs.len(),
-        "depth_bound": sw.depth,
+        "depth_bound": bound,
         "completed_depth": completed_depth,
         "sequences": acc.evaluations - before_eval,
         "per_depth": per_depth,
         "wall_s": t0.elapsed().as_secs_f64(),
     }));
     acc.states = bitmap.0.count();
+}
+
+/// The depth bound really used for a sweep registered with depth `d`.
+pub fn depth_bound(d: usize) -> usize {
+    d + std::env::var("VERIF_EXTRA_DEPTH").ok().and_then(|s| s.parse::<usize>().ok()).unwrap_or(0)
 }
 
 pub struct BitmapHolder(Bitmap);
